@@ -12,7 +12,7 @@ import GdVerif.Props.C02_whole
   in between is covered too) — followed by the unit's valid exchange, by nothing (the client has given up), or by a
   malformed datagram.  `faultyScript` / `faultyFaults` are the two arguments of `Net.init`: exactly what
   `props/families/valve.py: c10_build` builds for the differential check, which is now compared against these SPEC
-  functions (`gen valvefaults`).
+  functions (driver entry `valveplan`, `Run/ValveFaults.lean`: script, flags, result and sends must all agree).
 
   MODEL: `GdVerif/Proto/Valve.lean`, `GdVerif/Net.lean`.   SPEC: `GdVerif/Spec/Valve.lean`, `Spec/ValveFaults.lean`.
   Hypotheses common to all theorems = those of `C02_whole_any_order` / `C02_whole_compressed`: state in the SPEC's domain
